@@ -14,7 +14,7 @@ Lemma refund_effect s pid p s' ok :
   (* nothing remains, the pool has ended and left the queue for good *)
   /\ (exists p', get pid (pools s') = Some p' /\ Forall (fun r => r_rem r = 0) (p_rules p')
                  /\ p_end p' = height s /\ p_locked p' = p_locked p /\ p_farmers p' = p_farmers p
-                 /\ map r_total (p_rules p') = map r_total (p_rules p))
+                 /\ map (fun r => (r_denom r, r_total r)) (p_rules p') = map (fun r => (r_denom r, r_total r)) (p_rules p))
   /\ (forall e, in_queue (queue s') (e, pid) = false)
   /\ height s' = height s
   /\ (ok = true <-> exists d, 0 < rule_sum r_rem (p_rules p) d - rel d).
